@@ -71,8 +71,8 @@ impl Property for C01 {
     }
     fn runs(&self, tier: Tier) -> u64 {
         match tier {
-            Tier::Quick => 40_000,
-            Tier::Thorough => 3_000_000,
+            Tier::Quick => 400_000,
+            Tier::Thorough => 8_000_000,
         }
     }
     fn rule(&self) -> &'static str {
@@ -125,8 +125,8 @@ impl Property for C02 {
     }
     fn runs(&self, tier: Tier) -> u64 {
         match tier {
-            Tier::Quick => 40_000,
-            Tier::Thorough => 3_000_000,
+            Tier::Quick => 400_000,
+            Tier::Thorough => 8_000_000,
         }
     }
     fn rule(&self) -> &'static str {
@@ -405,8 +405,8 @@ impl Property for C03 {
     }
     fn runs(&self, tier: Tier) -> u64 {
         match tier {
-            Tier::Quick => 40_000,
-            Tier::Thorough => 3_000_000,
+            Tier::Quick => 400_000,
+            Tier::Thorough => 8_000_000,
         }
     }
     fn rule(&self) -> &'static str {
@@ -457,8 +457,8 @@ impl Property for C04 {
     }
     fn runs(&self, tier: Tier) -> u64 {
         match tier {
-            Tier::Quick => 60_000,
-            Tier::Thorough => 4_000_000,
+            Tier::Quick => 500_000,
+            Tier::Thorough => 10_000_000,
         }
     }
     fn rule(&self) -> &'static str {
@@ -505,8 +505,8 @@ impl Property for C05 {
     }
     fn runs(&self, tier: Tier) -> u64 {
         match tier {
-            Tier::Quick => 40_000,
-            Tier::Thorough => 3_000_000,
+            Tier::Quick => 400_000,
+            Tier::Thorough => 8_000_000,
         }
     }
     fn rule(&self) -> &'static str {
@@ -570,8 +570,8 @@ impl Property for C06 {
     }
     fn runs(&self, tier: Tier) -> u64 {
         match tier {
-            Tier::Quick => 15_000,
-            Tier::Thorough => 800_000,
+            Tier::Quick => 150_000,
+            Tier::Thorough => 3_000_000,
         }
     }
     fn rule(&self) -> &'static str {
@@ -634,8 +634,8 @@ impl Property for C07 {
     }
     fn runs(&self, tier: Tier) -> u64 {
         match tier {
-            Tier::Quick => 40_000,
-            Tier::Thorough => 3_000_000,
+            Tier::Quick => 400_000,
+            Tier::Thorough => 8_000_000,
         }
     }
     fn rule(&self) -> &'static str {
@@ -685,8 +685,8 @@ impl Property for C08 {
     }
     fn runs(&self, tier: Tier) -> u64 {
         match tier {
-            Tier::Quick => 40_000,
-            Tier::Thorough => 3_000_000,
+            Tier::Quick => 400_000,
+            Tier::Thorough => 8_000_000,
         }
     }
     fn rule(&self) -> &'static str {
@@ -818,8 +818,8 @@ impl Property for C09 {
     }
     fn runs(&self, tier: Tier) -> u64 {
         match tier {
-            Tier::Quick => 40_000,
-            Tier::Thorough => 3_000_000,
+            Tier::Quick => 400_000,
+            Tier::Thorough => 8_000_000,
         }
     }
     fn rule(&self) -> &'static str {
@@ -914,8 +914,8 @@ impl Property for C10 {
     }
     fn runs(&self, tier: Tier) -> u64 {
         match tier {
-            Tier::Quick => 6_000,
-            Tier::Thorough => 400_000,
+            Tier::Quick => 60_000,
+            Tier::Thorough => 1_000_000,
         }
     }
     fn rule(&self) -> &'static str {
@@ -1067,8 +1067,8 @@ impl Property for C11 {
     }
     fn runs(&self, tier: Tier) -> u64 {
         match tier {
-            Tier::Quick => 40_000,
-            Tier::Thorough => 2_000_000,
+            Tier::Quick => 400_000,
+            Tier::Thorough => 8_000_000,
         }
     }
     fn rule(&self) -> &'static str {
@@ -1137,8 +1137,8 @@ impl Property for C12 {
     }
     fn runs(&self, tier: Tier) -> u64 {
         match tier {
-            Tier::Quick => 2_500,
-            Tier::Thorough => 150_000,
+            Tier::Quick => 20_000,
+            Tier::Thorough => 400_000,
         }
     }
     fn rule(&self) -> &'static str {
@@ -1295,8 +1295,8 @@ impl Property for C13 {
     }
     fn runs(&self, tier: Tier) -> u64 {
         match tier {
-            Tier::Quick => 20_000,
-            Tier::Thorough => 1_500_000,
+            Tier::Quick => 200_000,
+            Tier::Thorough => 4_000_000,
         }
     }
     fn rule(&self) -> &'static str {
@@ -1463,8 +1463,8 @@ impl Property for C14 {
     }
     fn runs(&self, tier: Tier) -> u64 {
         match tier {
-            Tier::Quick => 40_000,
-            Tier::Thorough => 3_000_000,
+            Tier::Quick => 400_000,
+            Tier::Thorough => 8_000_000,
         }
     }
     fn rule(&self) -> &'static str {
